@@ -29,6 +29,44 @@ fn witness(size: usize) {
         let _ = std::fs::write(path, format!("{{\"refused_allocation_bytes\": {}, \"case\": \"{}\"}}\n", size, case));
     }
 }
+// ---- a fatal signal raised by the code under test (abort on heap corruption, segmentation fault, ...) leaves the same kind of witness ----
+extern "C" {
+    fn signal(sig: i32, handler: usize) -> usize;
+    fn open(path: *const u8, flags: i32, mode: u32) -> i32;
+    fn write(fd: i32, buf: *const u8, n: usize) -> isize;
+    fn _exit(code: i32) -> !;
+}
+static mut WPATH: [u8; 512] = [0; 512];
+extern "C" fn on_fatal(sig: i32) {
+    // (no allocation here: fixed buffers and raw system calls only)
+    unsafe {
+        let (a, n) = CASE.try_with(|c| c.get()).unwrap_or(([0; 768], 0));
+        let mut out = [0u8; 900];
+        let mut k = 0;
+        for b in b"{\"signal\": " { out[k] = *b; k += 1 }
+        if sig >= 10 { out[k] = b'0' + (sig / 10) as u8; k += 1 }
+        out[k] = b'0' + (sig % 10) as u8; k += 1;
+        for b in b", \"case\": \"" { out[k] = *b; k += 1 }
+        for b in &a[..n] { if *b != b'"' && *b != b'\\' && *b >= 0x20 { out[k] = *b; k += 1 } }
+        for b in b"\"}\n" { out[k] = *b; k += 1 }
+        let p = core::ptr::addr_of!(WPATH) as *const u8;
+        if *p != 0 {
+            let fd = open(p, 0o1101, 0o644);     // O_WRONLY | O_CREAT | O_TRUNC
+            if fd >= 0 { let _ = write(fd, out.as_ptr(), k); }
+        }
+        _exit(128 + sig)
+    }
+}
+/// Install the handlers (SIGABRT, SIGSEGV, SIGBUS, SIGILL, SIGFPE); the witness goes to $VH_WITNESS.
+pub fn install_fatal_handlers() {
+    if let Ok(path) = std::env::var("VH_WITNESS") {
+        let b = path.as_bytes();
+        if b.len() < 511 {
+            unsafe { let p = core::ptr::addr_of_mut!(WPATH) as *mut u8; for (i, x) in b.iter().enumerate() { *p.add(i) = *x } *p.add(b.len()) = 0; }
+            for sig in [6, 11, 7, 4, 8] { unsafe { signal(sig, on_fatal as usize); } }
+        }
+    }
+}
 fn note(n: usize) {
     let _ = TOTAL.try_with(|t| t.set(t.get().wrapping_add(n)));
     let _ = MAX_ONE.try_with(|m| if n > m.get() { m.set(n) });
